@@ -3,6 +3,7 @@
 package chain
 
 import (
+	"github.com/aergoio/aergo-actor/actor"
 	"github.com/aergoio/aergo-lib/db"
 	"github.com/aergoio/aergo/v2/state"
 	"github.com/aergoio/aergo/v2/types"
@@ -73,3 +74,23 @@ func VerifC06Marker(cs *ChainService) (start, best, top []byte, present bool, er
 
 // VerifC06SDB is the state DB of a Core (the harness' block producer commits block states into it).
 func (core *Core) VerifC06SDB() *state.ChainStateDB { return core.sdb }
+
+// verifC06Ctx is the part of actor.Context that ChainService.Receive uses for the messages it answers itself
+// (Message, Respond, Sender); every other method is the nil embedded interface.
+type verifC06Ctx struct {
+	actor.Context
+	msg  interface{}
+	resp interface{}
+}
+
+func (c *verifC06Ctx) Message() interface{}  { return c.msg }
+func (c *verifC06Ctx) Respond(r interface{}) { c.resp = r }
+func (c *verifC06Ctx) Sender() *actor.PID    { return nil }
+
+// VerifC06Receive hands one actor message to the real ChainService.Receive — the production entry point,
+// whose first message triggers the lazy Recover — and returns what Receive responded.
+func VerifC06Receive(cs *ChainService, msg interface{}) interface{} {
+	c := &verifC06Ctx{msg: msg}
+	cs.Receive(c)
+	return c.resp
+}
